@@ -1079,6 +1079,24 @@ def rw_path_canaries(toks, rep, qual, ex=None, unit_ret=False):
 # decided; their own obligations are reported as undecided
 FORCE_STUB: set = set()
 ISOLATE_LOST_BLOCKS: list = [False]
+# context of every anchored hint on the unchanged tree (the significant tokens right in front of a `before` hint's program point /
+# right behind an `after` hint's): recorded by tools/hint_deps.py into /verif/hint_ctx.json; when the anchor text itself is gone
+# (the anchored statement was edited or deleted) the hint is placed at the SAME program point found through this context
+HINT_CTX_OUT: dict = {}
+_HINT_CTX: list = [None]
+CTX_TOKENS = 10
+
+
+def _hint_ctx():
+    if _HINT_CTX[0] is None:
+        try:
+            import json as _json
+            _HINT_CTX[0] = _json.load(open(os.path.join(os.path.dirname(os.path.dirname(os.path.abspath(__file__))), "hint_ctx.json")))
+        except Exception:
+            _HINT_CTX[0] = {}
+    return _HINT_CTX[0]
+
+
 HINT_SITES: list = []
 ABLATE_HINT: list = [None]
 CALLPADS: list = []   # unit header `//! callpad: method N <text>`: a call `.method(a1..aN)` with exactly N arguments gets <text> appended
@@ -1728,7 +1746,7 @@ def build(template_text: str, repo: str, unit: str) -> Built:
     CANARY_COUNT[0] = 0
     if PATH_CANARIES[0]:
         template_text = template_text.replace("verus! {", "verus! {\npub uninterp spec fn verif_canary(k: int) -> bool;", 1)
-    HINT_SITES.clear()
+    HINT_SITES.clear(); HINT_CTX_OUT.clear()
     lemmas_ = {} if re.search(r"^//! unguarded_lemmas:\s*all\b", template_text, re.M) else collect_guarded_lemmas(template_text)
     mu_ = re.search(r"^//! unguarded_lemmas:\s*(.+)$", template_text, re.M)
     for nm_ in (mu_.group(1).split() if mu_ else []):
@@ -2234,7 +2252,24 @@ def _build_fn(sf: SourceFile, item: Item, impl, ex: Extract, props, rep, unit, a
                 hits = fz
                 rep.append(("hint", f"proof-hint anchor {anchor!r}: exact text gone, attached to the unique statement that differs only in renamed identifiers"))
         if len(hits) < k:
-            rep.append(("LOST", f"proof-hint anchor {anchor!r} #{k} not found ({len(hits)} hits): hint dropped"))
+            # the anchor text is gone: same program point through its recorded context?
+            ctx = _hint_ctx().get(unit, {}).get(qual, {}).get(f"{where}|{anchor}#{k}") if where in ("before", "after") else None
+            placed = False
+            if ctx:
+                sig = [q for q, t in enumerate(body_toks) if t.kind not in (WS, COMMENT, "raw")]
+                want = ctx.get("prev") if where == "before" else ctx.get("next")
+                if want and len(want) >= 3:
+                    occ = [j for j in range(0, len(sig) - len(want) + 1) if all(body_toks[sig[j + q]].text == want[q] for q in range(len(want)))]
+                    if len(occ) == 1:
+                        if where == "before":
+                            pos = sig[occ[0] + len(want) - 1] + 1
+                        else:
+                            pos = sig[occ[0]]
+                        body_toks[pos:pos] = [T("raw", "\n" + text + "\n")]
+                        rep.append(("hint", f"proof-hint anchor {anchor!r} #{k}: anchor text gone, hint placed at the same program point (found through the unchanged code {'in front of' if where == 'before' else 'behind'} it)"))
+                        placed = True
+            if not placed:
+                rep.append(("LOST", f"proof-hint anchor {anchor!r} #{k} not found ({len(hits)} hits): hint dropped"))
             continue
         a0, b0 = hits[k - 1]
         if where in ("after_arm", "before_arm"):
@@ -2287,6 +2322,9 @@ def _build_fn(sf: SourceFile, item: Item, impl, ex: Extract, props, rep, unit, a
             pv = _prev_sig(body_toks, pos)
             if pv >= 0 and body_toks[pv].text not in (";", "}", "{"):
                 text = "; " + text      # the statement was a block's tail expression of type ()
+        sigb_ = [t.text for t in body_toks[:pos] if t.kind not in (WS, COMMENT, "raw")][-CTX_TOKENS:]
+        siga_ = [t.text for t in body_toks[pos:] if t.kind not in (WS, COMMENT, "raw")][:CTX_TOKENS]
+        HINT_CTX_OUT[(qual, where, anchor, k)] = dict(prev=sigb_, next=siga_)
         body_toks[pos:pos] = [T("raw", "\n" + text + "\n")]
 
     if ex.exit_:
